@@ -871,3 +871,33 @@ def matchLanguage (s : Str) : Bool :=
 def langCtor (s : Str) : Option Str := if matchLanguage (collapse s) then some (collapse s) else none
 
 end EPV.Lex
+
+/-! ## the XML-name family: xs:Name, xs:NCName (xs:ID, xs:IDREF, xs:ENTITY), xs:NMTOKEN
+
+datatypes/string.py: `Name.pattern = ^(?:[^\d\W]|:)[\w.\-:·̀-ͯ‿⁀]*$`,
+`NCName.pattern = ^[^\d\W][\w.\-·̀-ͯ‿⁀]*$`, `NMToken.pattern = ^[\w.\-:…]+$`, constructor
+`XsdToken.__new__`: collapse, then the pattern.  The character classes depend on CPython's Unicode tables for
+`\w` and `\d`; they are *parameters* here — the translator enumerates, from the live patterns, the code points
+accepted in first position and in later positions (`EPV.Gen.C10.ncnameStart`, … ), as half-open ranges. -/
+namespace EPV.Lex
+
+/-- membership of a code point in a list of half-open ranges -/
+def inRanges (t : List (Nat × Nat)) (c : Char) : Bool := t.any fun r => decide (r.1 ≤ c.toNat) && decide (c.toNat < r.2)
+
+/-- `^<first><later>*$` on a collapsed string; the empty string never matches -/
+def matchNameLike (first later : List (Nat × Nat)) : Str → Bool
+  | [] => false
+  | c :: r => inRanges first c && r.all (inRanges later)
+
+/-- `AbstractQName.pattern` `^(?:(?P<prefix>F L*):)?(?P<local>F L*)$` (neither class contains the colon): with a colon the
+text before the first colon is the prefix and the rest the local name, without colon the whole string is the local name -/
+def matchQName (pfirst plater first later : List (Nat × Nat)) (t : Str) : Bool :=
+  if t.contains ':' then
+    matchNameLike pfirst plater (t.takeWhile (· != ':')) && matchNameLike first later ((t.dropWhile (· != ':')).drop 1)
+  else matchNameLike first later t
+
+/-- `T(s)`: the collapsed string when it matches -/
+def nameCtor (first later : List (Nat × Nat)) (s : Str) : Option Str :=
+  if matchNameLike first later (collapse s) then some (collapse s) else none
+
+end EPV.Lex
